@@ -4,6 +4,9 @@ package main
 // inputs, assumptions, assertions, observations.
 
 import (
+	"sort"
+
+	"golang.org/x/tools/go/ssa"
 	"encoding/base64"
 	"fmt"
 )
@@ -192,6 +195,37 @@ func (in *Interp) registerSymIntrinsics() {
 		}
 		return args[2]
 	}
+	r[P+"RegistryKey"] = func(in *Interp, fr *frame, args []Value) Value {
+		ps := in.ps
+		name := ps.uniqueName(in.vName(args[1]))
+		if ps.concrete != nil {
+			v, ok := ps.concrete[name]
+			if !ok {
+				panic(in.abort("witness", "missing input "+name))
+			}
+			return mkStr(v.(string))
+		}
+		which := int(in.concInt(args[2].(*Term), true))
+		gname := []string{"leafDecoders", "decoders", "multiCauseDecoders", "leafEncoders", "encoders"}[which]
+		pkg := in.env.allPkgs["github.com/cockroachdb/errors/errbase"]
+		g, ok := pkg.Members[gname].(*ssa.Global)
+		if !ok {
+			panic(in.abort("internal", "registry "+gname+" not found in errbase"))
+		}
+		m := in.globals[g].V.(*Map)
+		var keys []string
+		for _, e := range m.Entries {
+			if !e.Deleted {
+				keys = append(keys, in.concStr(e.K.(Str)))
+			}
+		}
+		sort.Strings(keys)
+		keys = append(keys, "unregistered/pkg/*pkg.Type")
+		k := keys[ps.choose(in, len(keys))]
+		b := mkStr(k).Bytes(in.tf)
+		ps.inputs = append(ps.inputs, inputRec{Name: name, Kind: "str", Terms: b})
+		return mkStr(k)
+	}
 	r[P+"Freeze"] = func(in *Interp, fr *frame, args []Value) Value {
 		in.epoch++
 		in.ps.frozen = true
@@ -211,8 +245,13 @@ func (in *Interp) registerSymIntrinsics() {
 		// v.CallerHook(id, depthTerm, base): installs the C16 algebraic obligation
 		id := in.vName(args[1])
 		depth := args[2].(*Term)
+		mode := int(in.concInt(args[3].(*Term), true))
 		anchor := fr.caller // the harness helper frame that will call the entry function
 		in.ps.callersHook = func(in *Interp, ifr *frame, skip *Term, nframes int) {
+			isCaller := ifr.fn.Name() == "Caller"
+			if (isCaller && mode&2 == 0) || (!isCaller && mode&1 == 0) {
+				return
+			}
 			// number of logical frames between the runtime function (index 0) and the
 			// frame directly called by the anchor
 			frames := 0
@@ -233,6 +272,10 @@ func (in *Interp) registerSymIntrinsics() {
 			// function called by the anchor, so skip=frames+1 names the anchor at depth 0)
 			want := in.tf.Bin(OAdd, in.tf.Const(64, uint64(frames+1)), depth)
 			in.ps.assertObl(in, id, in.tf.Eq(skip, want))
+			if !depth.IsConst() {
+				// obligation discharged for every depth; continue the path with depth 0
+				in.ps.assume(in, in.tf.Eq(depth, in.tf.Const(depth.W, 0)))
+			}
 		}
 		return nil
 	}
